@@ -52,16 +52,37 @@ Theorem C13_empty_roundtrip_identity : forall fuel w st,
 Proof. exact empty_roundtrip. Qed.
 Print Assumptions C13_empty_roundtrip_identity.
 
-(* an instance's provides-declaration: while the instance holds it, the weak cache still knows it,
-   and unpickling in the same process returns the identical object (after any history) *)
-Theorem C13_provides_roundtrip_identity_live : forall fuel w ops o io p,
+(* an instance's provides-declaration that is still shared (the weak cache maps its arguments to
+   it): unpickling in the same process returns the identical object, in any state *)
+Theorem C13_provides_roundtrip_identity_shared : forall fuel w st pr p,
+  wf_globals w = true -> ids_ok w (pv_cls pr) (pv_ifaces pr) = true ->
+  assoc_key (pv_cls pr, pv_ifaces pr) (st_cache st) = Some p ->
+  rebuild fuel w st (reduce_prov w pr) = (st, Some (OProv p)).
+Proof. exact provides_roundtrip_shared. Qed.
+Print Assumptions C13_provides_roundtrip_identity_shared.
+
+(* after every module-ordered history (class-level operations, then any instance operations and
+   collections) every declaration an instance holds is alive, hence still shared, hence unpickles
+   to the identical object.  (A class-level operation AFTER the instance was declared makes the
+   declaration leave the cache -- Provides.changed -- and it is then no longer current either:
+   see C13_stale_declaration_is_rebuilt_current below.) *)
+Theorem C13_provides_roundtrip_identity_live : forall fuel w cops iops o io p,
   wf_globals w = true ->
-  nth_error (st_insts (run fuel w ops)) o = Some io -> in_provides io = Some p ->
-  exists pr, nth_error (st_provs (run fuel w ops)) p = Some pr /\
+  forallb is_class_op cops = true -> forallb (fun x => negb (is_class_op x)) iops = true ->
+  nth_error (st_insts (run fuel w (cops ++ iops))) o = Some io -> in_provides io = Some p ->
+  exists pr, nth_error (st_provs (run fuel w (cops ++ iops))) p = Some pr /\
+    assoc_key (pv_cls pr, pv_ifaces pr) (st_cache (run fuel w (cops ++ iops))) = Some p /\
     (ids_ok w (pv_cls pr) (pv_ifaces pr) = true ->
-     rebuild fuel w (run fuel w ops) (reduce_prov w pr) = (run fuel w ops, Some (OProv p))).
+     rebuild fuel w (run fuel w (cops ++ iops)) (reduce_prov w pr) = (run fuel w (cops ++ iops), Some (OProv p))).
 Proof. exact provides_roundtrip_live. Qed.
 Print Assumptions C13_provides_roundtrip_identity_live.
+
+(* in EVERY reachable state every shared declaration is current: its bases are what its
+   constructor arguments give in the present state of its class *)
+Theorem C13_shared_declarations_are_current : forall fuel w ops,
+  cache_current fuel w (run fuel w ops) = true.
+Proof. exact run_current. Qed.
+Print Assumptions C13_shared_declarations_are_current.
 
 (* a provides-declaration unpickled in ANY process [st2] that has the same class declarations
    ([get_impl] agrees) and whose cached declarations are current: the result has the same
@@ -110,6 +131,21 @@ Theorem C13_provides_roundtrip_fresh_process : forall fuel w cops iops iops' o i
 Proof. exact provides_roundtrip_fresh_process. Qed.
 Print Assumptions C13_provides_roundtrip_fresh_process.
 
+(* any histories at all: a still-shared declaration of a reachable state, unpickled in any reachable
+   state of a process whose classes are declared alike, has the same arguments, bases, interfaces *)
+Theorem C13_provides_roundtrip_reachable : forall fuel w ops ops2 p pr,
+  wf_globals w = true -> ids_ok w (pv_cls pr) (pv_ifaces pr) = true ->
+  (forall k, get_impl w (run fuel w ops2) k = get_impl w (run fuel w ops) k) ->
+  nth_error (st_provs (run fuel w ops)) p = Some pr ->
+  assoc_key (pv_cls pr, pv_ifaces pr) (st_cache (run fuel w ops)) = Some p ->
+  exists st2' p' pr',
+    rebuild fuel w (run fuel w ops2) (reduce_prov w pr) = (st2', Some (OProv p')) /\
+    nth_error (st_provs st2') p' = Some pr' /\
+    pv_cls pr' = pv_cls pr /\ pv_ifaces pr' = pv_ifaces pr /\ pv_bases pr' = pv_bases pr /\
+    obj_interfaces fuel w st2' (OProv p') = obj_interfaces fuel w (run fuel w ops) (OProv p).
+Proof. exact provides_roundtrip_reachable. Qed.
+Print Assumptions C13_provides_roundtrip_reachable.
+
 (* a class's provides-declaration (ClassProvides) is rebuilt, not shared: the result is a
    declaration with the same arguments, bases and interfaces, after any history *)
 Theorem C13_classprovides_roundtrip_same_interfaces : forall fuel w ops q qr,
@@ -124,27 +160,44 @@ Theorem C13_classprovides_roundtrip_same_interfaces : forall fuel w ops q qr,
 Proof. exact classprovides_roundtrip. Qed.
 Print Assumptions C13_classprovides_roundtrip_same_interfaces.
 
-(* an instance carrying (or not carrying) a declaration: unpickling creates a NEW instance whose
-   record — class, declaration object, plain attributes — equals the original's, touches nothing
-   else, and the new instance provides the same interfaces *)
-Theorem C13_object_with_declaration_roundtrip : forall fuel w ops o io,
+(* an instance carrying (or not carrying) a declaration, in any state; the declaration, if any,
+   is importable and still shared.  Unpickling creates a NEW instance whose record -- class,
+   declaration object, plain attributes -- equals the original's, touches nothing else, and the
+   new instance provides the same interfaces *)
+Theorem C13_object_with_declaration_roundtrip : forall fuel w st io,
   wf_globals w = true ->
-  nth_error (st_insts (run fuel w ops)) o = Some io ->
   in_cls io < List.length (w_classes w) ->
-  (forall p pr, in_provides io = Some p -> nth_error (st_provs (run fuel w ops)) p = Some pr ->
-                ids_ok w (pv_cls pr) (pv_ifaces pr) = true) ->
+  (forall p, in_provides io = Some p ->
+     exists pr, nth_error (st_provs st) p = Some pr /\ ids_ok w (pv_cls pr) (pv_ifaces pr) = true /\
+                assoc_key (pv_cls pr, pv_ifaces pr) (st_cache st) = Some p) ->
   exists st',
-    rebuild fuel w (run fuel w ops) (reduce_inst w (run fuel w ops) io)
-      = (st', Some (OInst (List.length (st_insts (run fuel w ops))))) /\
-    nth_error (st_insts st') (List.length (st_insts (run fuel w ops))) = Some io /\
-    st_impl st' = st_impl (run fuel w ops) /\ st_provs st' = st_provs (run fuel w ops) /\
-    st_cache st' = st_cache (run fuel w ops) /\
-    inst_provided fuel w st' io = inst_provided fuel w (run fuel w ops) io.
+    rebuild fuel w st (reduce_inst w st io) = (st', Some (OInst (List.length (st_insts st)))) /\
+    nth_error (st_insts st') (List.length (st_insts st)) = Some io /\
+    st_impl st' = st_impl st /\ st_provs st' = st_provs st /\ st_cache st' = st_cache st /\
+    inst_provided fuel w st' io = inst_provided fuel w st io.
 Proof. exact object_roundtrip. Qed.
 Print Assumptions C13_object_with_declaration_roundtrip.
 
+(* ... which holds for every instance after every module-ordered history *)
+Theorem C13_object_roundtrip_module_ordered : forall fuel w cops iops o io,
+  wf_globals w = true ->
+  forallb is_class_op cops = true -> forallb (fun x => negb (is_class_op x)) iops = true ->
+  nth_error (st_insts (run fuel w (cops ++ iops))) o = Some io ->
+  in_cls io < List.length (w_classes w) ->
+  (forall p pr, in_provides io = Some p -> nth_error (st_provs (run fuel w (cops ++ iops))) p = Some pr ->
+                ids_ok w (pv_cls pr) (pv_ifaces pr) = true) ->
+  exists st',
+    rebuild fuel w (run fuel w (cops ++ iops)) (reduce_inst w (run fuel w (cops ++ iops)) io)
+      = (st', Some (OInst (List.length (st_insts (run fuel w (cops ++ iops)))))) /\
+    nth_error (st_insts st') (List.length (st_insts (run fuel w (cops ++ iops)))) = Some io /\
+    st_impl st' = st_impl (run fuel w (cops ++ iops)) /\ st_provs st' = st_provs (run fuel w (cops ++ iops)) /\
+    st_cache st' = st_cache (run fuel w (cops ++ iops)) /\
+    inst_provided fuel w st' io = inst_provided fuel w (run fuel w (cops ++ iops)) io.
+Proof. exact object_roundtrip_ordered. Qed.
+Print Assumptions C13_object_roundtrip_module_ordered.
+
 (* the unpickled value is equal and hash-equal to the original: interfaces (key equality, key hash),
-   class specifications and live provides-declarations (identity).  For ClassProvides and for
+   class specifications and still-shared provides-declarations (identity).  For ClassProvides and for
    declarations rebuilt in another process "equal" can only mean "same arguments, bases and
    interfaces" (the two theorems above): Python's == on them is identity *)
 Theorem C13_roundtrip_eq_hash : forall fuel w ops,
@@ -157,8 +210,8 @@ Theorem C13_roundtrip_eq_hash : forall fuel w ops,
      exists y, rebuild fuel w (run fuel w ops) (reduce_impl w r) = (run fuel w ops, Some y) /\
        py_eq w y (OImpl c) = true /\
        forall hk hid, py_hash w hk hid y = py_hash w hk hid (OImpl c)) /\
-  (forall o io p pr, nth_error (st_insts (run fuel w ops)) o = Some io -> in_provides io = Some p ->
-     nth_error (st_provs (run fuel w ops)) p = Some pr -> ids_ok w (pv_cls pr) (pv_ifaces pr) = true ->
+  (forall p pr, nth_error (st_provs (run fuel w ops)) p = Some pr -> ids_ok w (pv_cls pr) (pv_ifaces pr) = true ->
+     assoc_key (pv_cls pr, pv_ifaces pr) (st_cache (run fuel w ops)) = Some p ->
      exists y, rebuild fuel w (run fuel w ops) (reduce_prov w pr) = (run fuel w ops, Some y) /\
        py_eq w y (OProv p) = true /\
        forall hk hid, py_hash w hk hid y = py_hash w hk hid (OProv p)).
@@ -250,4 +303,25 @@ Example C13_witness_classprovides_and_objects :
     = Some (Some (OInst 2)) /\
   option_map (fun io => nth_error (st_insts (fst (rebuild 10 w0 st0 (reduce_inst w0 st0 io)))) 2)
              (nth_error (st_insts st0) 0) = Some (nth_error (st_insts st0) 0).
+Proof. vm_compute. repeat split. Qed.
+
+(* why "still shared" / "module-ordered" is needed: declare the instance first, narrow its class
+   afterwards.  o0 = C2(); directlyProvides(o0, I2) while C2 inherits nothing that implies I2, then
+   classImplements(C2, I2): the old declaration leaves the cache, the instance keeps it (stale,
+   bases still [I2; C2]); unpickling builds a new, current declaration (bases [C2]) that lists the
+   same interfaces here -- and the cache is current again *)
+Definition ops1 : list op := [OpDirectlyProvides 0 [2]; OpClassImplements 2 [2]].
+Example C13_stale_declaration_is_rebuilt_current :
+  let st := run 10 w0 ops1 in
+  option_map in_provides (nth_error (st_insts st) 0) = Some (Some 0) /\
+  st_cache st = [] /\
+  option_map (prov_current 10 w0 st) (nth_error (st_provs st) 0) = Some false /\
+  option_map (fun pr => snd (rebuild 10 w0 st (reduce_prov w0 pr))) (nth_error (st_provs st) 0)
+    = Some (Some (OProv 1)) /\
+  option_map (fun pr => map pv_bases (st_provs (fst (rebuild 10 w0 st (reduce_prov w0 pr)))))
+             (nth_error (st_provs st) 0) = Some [[RI 2; RC 2]; [RC 2]] /\
+  obj_interfaces 10 w0 st (OProv 0) = [2] /\
+  option_map (fun pr => let '(s, y) := rebuild 10 w0 st (reduce_prov w0 pr) in
+                        (option_map (obj_interfaces 10 w0 s) y, cache_current 10 w0 s))
+             (nth_error (st_provs st) 0) = Some (Some [2], true).
 Proof. vm_compute. repeat split. Qed.
